@@ -336,9 +336,14 @@ var (
 
 // vhTagWord: a generic word that is not of the form go1.*, or "go1." followed
 // by up to two digits (possibly none, possibly with a leading zero), or "go1."
-// followed by non-digit junk.
+// followed by non-digit junk, or a malformed word (containing '-', '=' or '/').
 func vhTagWord() string {
-	switch vConcretizeInt(vNondetInt("tagkind"), 0, 2) {
+	switch vConcretizeInt(vNondetInt("tagkind"), 0, 3) {
+	case 3:
+		// a malformed tag: some byte is not a letter, digit, '_' or '.'
+		w := vNondetWord("bad", "ab_-=/", 4)
+		vAssume(!vInCharset(w, vhTagWordChars))
+		return w
 	case 1:
 		return "go1." + vNondetWord("rel", "0123456789", 2)
 	case 2:
